@@ -862,12 +862,13 @@ def ob_struct_literal_order(r, tier, seed):
         order, seq = p.value; r.nontrivial += 1
         if seq != [1, 2, 3]:
             if r.findings: continue
-            src = 'struct P { x: int32, y: int32 }\nfn f(s: string, n: int32) -> int32 { let _ = string_println(s); n }\nfn main() -> unit { let p = P { y: f("first", 1), x: f("second", 2) }; string_println(int32_to_string(p.x + p.y)) }\n'
+            lit = ', '.join('%s: f("w%d", %d)' % (n, i + 1, i + 1) for i, n in enumerate(order))
+            src = 'struct P { x: int32, y: int32, z: int32 }\nfn f(s: string, n: int32) -> int32 { let _ = string_println(s); n }\nfn main() -> unit { let p = P { %s }; string_println(int32_to_string(p.x + p.y + p.z)) }\n' % lit
             go = compile_program(src); body = go[go.find('func main0'):].split('func main()')[0]
-            a_, b_ = body.find('"first"'), body.find('"second"')
-            ok_ = a_ != -1 and b_ != -1 and b_ < a_
-            r.findings.append(Finding('struct-literal-fields-reordered', 'the literal `P { %s }` evaluates its initialisers in the order %s of writing positions (declaration order of the fields, not the order written)' % (', '.join('%s: %d' % (n, i + 1) for i, n in enumerate(order)), seq), {'order': list(order), 'evaluated': seq}, ok_,
-                                      'goml `P { y: f("first", 1), x: f("second", 2) }`: in the emitted main0 the call with "second" comes %s the call with "first"' % ('before' if ok_ else 'after')))
+            pos = [body.find('"w%d"' % (i + 1)) for i in range(3)]
+            ok_ = all(x != -1 for x in pos) and pos != sorted(pos)
+            r.findings.append(Finding('struct-literal-fields-reordered', 'the literal `P { %s }` evaluates its initialisers in the order %s of writing positions (not the order written)' % (', '.join('%s: %d' % (n, i + 1) for i, n in enumerate(order)), seq), {'order': list(order), 'evaluated': seq}, ok_,
+                                      'goml `P { %s }`: in the emitted main0 the calls appear in the order %s' % (lit, [x[1] for x in sorted(zip(pos, ['w1', 'w2', 'w3']))])))
         elif len(r.samples) < 3: r.samples.append({'written': list(order), 'evaluated': seq})
 
 _c09_obl2 = obligations
